@@ -18,7 +18,8 @@ Correspondence (props/engine_common.run_engine_check): every run of the real eng
 released and (b) satisfies mon_gate evaluated directly on the observed trace.  Profile `gate` is bounded-exhaustive:
 2 levels (plan, block 0) x 32 presence subsets of the five check groups x (bypass ok | no failure | first failing
 group among the present pre/cont/post/deferred) = 224 cases, all in the quick tier; `mixed` adds random shapes with
-failing bypasses, continuous groups with and without pre groups, holds and overruns.
+failing bypasses, continuous groups with and without pre groups, holds and overruns; `cont` and `final` add failures of
+the k-th continuous run and a failing stage at every position (what decides the final status of an entered scope).
 Release obligation: a scope whose pre / initial continuous run fails must still END - a run in which Wait does not
 return within 5 s (re-run 3x in fresh child processes) is a concrete violation (E2 was such a hang).
 """
@@ -59,12 +60,12 @@ def _smgraph(ctx):
 def run(ctx):
     out = ec.run_engine_check(
         ctx,
-        profile=[("gate", 224, 2240), ("mixed", 110, 2000)],
+        profile=[("gate", 224, 6720), ("mixed", 150, 6000), ("cont", 48, 1500), ("final", 48, 1500)],
         n_quick=0, n_thorough=0,
         extra_header="From Coercion.C06 Require Import MonC06.",
         monitors=["mon_gate", ("mon_gate_diag", "list")],
         release_obligation=True,
-        multi_quick=0, multi_thorough=200,
+        multi_quick=0, multi_thorough=400,
         proj="c06",
         pre_checks=[_smgraph],
         rule_extra="mon_gate_diag codes: " + "; ".join("%d = %s" % kv for kv in sorted(CODES.items()))
@@ -77,4 +78,15 @@ def run(ctx):
                      "action (C05), entrance/exit delays (0 in every generated plan: status Stopped never occurs), recovered runs "
                      "(C09/C10: skipRecoveredChecks paths)"],
     )
+    # which clauses of the monitor are violated, on how many traces (mon_gate_diag = [code; event index; scope])
+    if out and out.get("mon_bad"):
+        hist = {}
+        for c, r in out["mon_bad"].get("mon_gate_diag", []):
+            d = r[2] if r and len(r) > 2 else None
+            if d and d[0] != 0:
+                key = (d[0], "plan" if len(d) > 2 and d[2] == 0 else "block")
+                hist.setdefault(key, []).append(c["id"])
+        for (code, scope), ids in sorted(hist.items()):
+            ctx.say("C06: clause %d violated in the %s scope on %d traces (e.g. %s): %s"
+                    % (code, scope, len(ids), ", ".join(ids[:3]), CODES.get(code, "?")))
     return out
